@@ -10,7 +10,7 @@ use std::io::Cursor;
 
 pub fn zoom_resolutions(o: &WOpts) -> Vec<u32> {
     match &o.zoom {
-        Zoom::Manual(v) => v.clone(),
+        Zoom::Manual(v) | Zoom::ManualWithMax(v, _) => v.clone(),
         Zoom::Auto { initial, .. } => vec![*initial, initial * 4, initial * 16],
     }
 }
